@@ -70,7 +70,7 @@ UIDS = ["u1", "u2", "u3"]
 PROJECTS = ["p1", "p1", "p2", "p2", "proj-3", "proj-3", "x", "x", "y", "z", "", " ", "\t\n", "\u00a0", "\u200b", " p ", "\u2003\u3000"]
 MINVERS = [None, None, "0.3.0", "1.0"]
 WEIGHTS = [("env-add", 10), ("env-upsert", 4), ("env-switch", 13), ("env-del", 10), ("create-token", 18), ("create-oidc", 8),
-           ("select", 10), ("select-any", 6), ("delete", 8), ("set-project", 3), ("update-key", 4), ("destroy", 1)]
+           ("select", 10), ("select-any", 6), ("delete", 8), ("set-project", 3), ("update-key", 4), ("destroy", 1), ("probe", 7)]
 MALFORMED = ["", "select", "select|1|2", "select|x", "env-add|104|2|~", "env-add|104|1", "create-token|112", "nonsense|1|2",
              "select-any|1", "env-switch|1,,2", "update-key|1|~", "destroy|", "create-oidc|1|2|3", "delete|-1", "env-del|1.2"]
 
@@ -156,6 +156,8 @@ def gen_op(rng, urls: list[str], names: list[str], sh: Shadow) -> list:
         return [kind, name, rng.choice(PROJECTS)]
     if kind == "update-key":
         return [kind, name, rng.choice(KEYS), rng.choice([None, "kid-1", "kid-2"])]
+    if kind == "probe":
+        return [kind, rng.random() < 0.5, rng.choice(MINVERS)]
     return [kind]
 
 
@@ -255,7 +257,7 @@ def run_case(case: dict, out: Outcome) -> tuple[list[str], list[str], list[Viola
 def run(env: Env) -> Outcome:
     out = Outcome()
     out.rule = ("op sequences (6-40 ops) over 4+1 environment URLs, token/OIDC/keyless profile creation with colliding names, "
-                "select/select-any/delete/update/set-project/destroy, 30% seeded with same-named profiles in two environments; "
+                "select/select-any/delete/update/set-project/destroy, server probes of the current environment (auto_update_env), 30% seeded with same-named profiles in two environments; "
                 "non-trivial = at least one profile created and at least one environment change; distinct by op list")
     urls, names = _pools()
     cases: list[dict] = []
